@@ -206,7 +206,8 @@ def _is_list_local(f, e):
     if not isinstance(e, ast.Name):
         return False
     ds = astx.defs_of(f.node, e.id)
-    return bool(ds) and all(isinstance(dv, (ast.List, ast.ListComp)) or (isinstance(dv, ast.Call) and astx.u(dv.func) == "list") for _, dv in ds)
+    plain = [(st, dv) for st, dv in ds if not isinstance(st, ast.AugAssign)]  # `x += ...` keeps the type of x
+    return bool(plain) and all(isinstance(dv, (ast.List, ast.ListComp)) or (isinstance(dv, ast.Call) and astx.u(dv.func) == "list") for _, dv in plain)
 
 
 def _maybe_set(e):
@@ -224,7 +225,7 @@ def _bound_by_comprehension(x, v, pm):
     return False
 
 
-def _singleton_proof(prog, f, node, S, pm):
+def _singleton_proof(prog, f, node, S, pm, depth=0):
     N = Normalizer(f.node, inline=False, int_atoms=lambda a: True)
     sk = N.key(S)
     lits = literals(N.conj(astx.path_condition(f.node, node, pm)))
@@ -259,10 +260,28 @@ def _singleton_proof(prog, f, node, S, pm):
     # guarded by a predicate summarised as len(S) == 1
     if "truthy(self.has_condorcet_winner())" in lits and "dominating_tiers()[0]" in astx.u(S):
         return "guarded by has_condorcet_winner(), i.e. len(tier 0) == 1"
+    # a local that holds one of several sets, each a singleton under the condition it is assigned under
+    # (x = S; if len(S) > 1: x = tiebreak_set(S, ...)[-1])
+    if isinstance(S, ast.Name) and depth < 2:
+        cases = astx.value_cases(f.node, S.id, astx.stmt_of(node, pm), pm)
+        if cases and len(cases) > 1:
+            whys = []
+            for conds, v in cases:
+                cl = literals(N.conj(list(conds)))
+                vk = N.key(v)
+                if f"not ge(len({vk}), 2)" in cl or f"eq(len({vk}), 1)" in cl:
+                    whys.append(f"{vk}: bounded by its case")
+                    continue
+                if isinstance(v, ast.Subscript) and isinstance(v.value, ast.Name):
+                    dfs = astx.defs_of(f.node, v.value.id)
+                    if dfs and all(isinstance(dv, ast.Call) and astx.call_name(dv) == "tiebreak_set" for _, dv in dfs):
+                        whys.append(f"{vk}: element of a tiebreak_set result")
+                        continue
+                return None
+            return "every case holds a singleton (" + "; ".join(whys) + ")"
     return None
 
 
-@shape_rule
 def r2_positional_picks(ctx):
     prog = ctx.prog
     n = 0
